@@ -95,6 +95,49 @@ fn explore(ctx: &Ctx, rep: &mut Report) {
     let mut r = r;
     r.mark_exhaustive("families", "every (family, parameter) of the list x 2 whitespace patterns; all nodes walked; get/get_fast at boundary indices for arrays > 40 elements");
     rep.merge(r);
+    // Exhaustive \uXXXX decoding: every BMP code unit that is not a surrogate (both hex cases), and every
+    // high surrogate x a set of low surrogates covering both ends and the middle of the range — i.e. every
+    // plane and every carry of the pair arithmetic — as a root string, as the tail of a longer string, and as an
+    // object key. The decoded text must be exactly that scalar value.
+    let lows: [u32; 6] = [0xDC00, 0xDC01, 0xDD55, 0xDEAA, 0xDFFE, 0xDFFF];
+    let n_bmp = 0x10000u64;
+    let n_pairs = 0x400u64 * lows.len() as u64;
+    let mut r = par_range_in(ctx, "escape-decoding", n_bmp + n_pairs, 2048, |i, rep| {
+        let (esc_lo, esc_up, expect): (String, String, char) = if i < n_bmp {
+            let u = i as u32;
+            if (0xD800..=0xDFFF).contains(&u) {
+                return;
+            }
+            (format!("\\u{u:04x}"), format!("\\u{u:04X}"), char::from_u32(u).unwrap())
+        } else {
+            let j = i - n_bmp;
+            let hi = 0xD800 + (j / lows.len() as u64) as u32;
+            let lo = lows[(j % lows.len() as u64) as usize];
+            let cp = 0x10000 + ((hi - 0xD800) << 10) + (lo - 0xDC00);
+            (format!("\\u{hi:04x}\\u{lo:04x}"), format!("\\u{hi:04X}\\u{lo:04X}"), char::from_u32(cp).unwrap())
+        };
+        rep.input();
+        rep.distinct(&("escape", expect));
+        for esc in [&esc_lo, &esc_up] {
+            for (doc, want, how) in [
+                (format!("\"{esc}\""), expect.to_string(), "root"),
+                (format!("[\"ab{esc}c\"]"), format!("ab{expect}c"), "inner"),
+                (format!("{{\"{esc}\":1}}"), expect.to_string(), "key"),
+            ] {
+                rep.trans(1);
+                let text = doc.as_bytes();
+                let got = decode_escape_doc(text, how);
+                let ok = matches!(&got, Ok(Some(g)) if *g == want);
+                if !ok {
+                    let plane = (expect as u32) >> 16;
+                    let class = if plane == 0 { "bmp".to_string() } else if plane % 2 == 0 { "even-plane-pair".to_string() } else { "odd-plane-pair".to_string() };
+                    rep.fail(&format!("escape-decoding:{how}:{class}"), doc.len(), || json!({"kind":"escape","doc":doc,"expected":want,"got":format!("{got:?}")}));
+                }
+            }
+        }
+    });
+    r.mark_exhaustive("escape-decoding", "every non-surrogate BMP \\uXXXX (lower and upper hex) and every high surrogate x 6 low surrogates, as root string, inside a longer string, and as an object key");
+    rep.merge(r);
     rep.sample(|| {
         let sp = Space::new(Alphabet::full(), 3);
         let d = sp.doc(sp.total() - 5, &Ws::Uniform(" ".into()));
@@ -111,7 +154,45 @@ fn explore(ctx: &Ctx, rep: &mut Report) {
     );
 }
 
+fn decode_escape_doc(text: &[u8], how: &str) -> Result<Option<String>, String> {
+    use succinctly::json::{JsonIndex, StandardJson};
+    catch(|| {
+        let ix = JsonIndex::build(text);
+        let root = ix.root(text);
+        match how {
+            "root" => match root.value() {
+                StandardJson::String(s) => s.as_str().ok().map(|c| c.to_string()),
+                _ => None,
+            },
+            "inner" => root.first_child().and_then(|c| match c.value() {
+                StandardJson::String(s) => s.as_str().ok().map(|c| c.to_string()),
+                _ => None,
+            }),
+            _ => match root.value() {
+                StandardJson::Object(mut f) => f.next().and_then(|fld| match fld.key() {
+                    StandardJson::String(s) => s.as_str().ok().map(|c| c.to_string()),
+                    _ => None,
+                }),
+                _ => None,
+            },
+        }
+    })
+}
+
 fn replay(case: &Value, rep: &mut Report) {
+    if case["kind"] == "escape" {
+        let doc = case["doc"].as_str().unwrap();
+        let how = if doc.starts_with('"') { "root" } else if doc.starts_with('[') { "inner" } else { "key" };
+        let got = decode_escape_doc(doc.as_bytes(), how);
+        let want = case["expected"].as_str().unwrap();
+        if !matches!(&got, Ok(Some(g)) if g == want) {
+            let cp = want.chars().find(|c| !c.is_ascii()).map(|c| c as u32).unwrap_or(0);
+            let plane = cp >> 16;
+            let class = if plane == 0 { "bmp" } else if plane % 2 == 0 { "even-plane-pair" } else { "odd-plane-pair" };
+            rep.fail(&format!("escape-decoding:{how}:{class}"), doc.len(), || json!({"kind":"escape","doc":doc,"expected":want,"got":format!("{got:?}")}));
+        }
+        return;
+    }
     let d = jgen::regen(&case["doc"]);
     let big = case["doc"].get("family").is_some();
     // run on a big stack (deep families)
